@@ -6,11 +6,5 @@ CONSTANTS
   Defect_UnlockedJoin = FALSE
   Defect_SplitDrop = FALSE
 INVARIANTS
-  TypeOK
-  C29_ReturnedHandleIsBacked
-  C29_LeftAtZero
-  X_CounterCountsHandles
-PROPERTIES
-  C29_LeftOnlyAtZero
-VIEW NoHistView
+  Export
 CHECK_DEADLOCK FALSE
